@@ -57,6 +57,13 @@ impl Prop for C04 {
       },
     ]
   }
+  fn stages(&self, ctx: &Ctx) -> Vec<Stage> {
+    if ctx.tier == Tier::Thorough {
+      crate::fuzz::campaigns("C04", &["tree_c04"], ctx)
+    } else {
+      vec![]
+    }
+  }
   fn check(&self, case: &TreeCase) -> CheckResult {
     let spec = &case.spec;
     if spec.has_sms() || spec.cached_under_replace() {
